@@ -2,9 +2,56 @@
   EG.Driver.Circle — model side of the `circle.*` correspondence streams (harness/src/m_circle.rs).
 -/
 import EG.Driver.Util
+import EG.Model.Circle
 namespace EG.Driver
 open EG
 
-def handleCircle (_stream : String) (_t : Toks) : Option String := none
+private def alignOf : Nat → StrokeAlignment | 0 => .inside | 1 => .center | _ => .outside
+
+def parseCol (s : String) : Option Color := if s == "-" then none else some (parseNat s)
+
+def fmtCircle (c : Circle) : String := s!"{c.tl.x},{c.tl.y},{c.d}"
+
+private def fmtCall : Call → String
+  | .drawIter px => "di:" ++ fmtPix px
+  | .fillContiguous a cs => s!"fc:{fmtRect a}:{fmtNats cs}"
+  | .fillSolid a c => s!"fs:{fmtRect a}:{c}"
+  | .clear c => s!"cl:{c}"
+
+private def fmtLog (cs : List Call) : String := joinOr "|" (cs.map fmtCall)
+
+def handleCircle (stream : String) (t : Toks) : Option String :=
+  match stream with
+  | "circle.points" =>
+    let (tl, t) := t.pt
+    let (d, _) := t.nat
+    let c : Circle := ⟨tl, d⟩
+    let ys := irange (tl.y - 3) (tl.y + d + 3)
+    let xs := irange (tl.x - 3) (tl.x + d + 3)
+    let bits := ys.flatMap (fun y => xs.map (fun x => c.contains ⟨x, y⟩))
+    some s!"bb={fmtRect c.boundingBox} c={fmtPt c.center} pts={fmtPts c.points} in={fmtBits bits}"
+  | "circle.areas" =>
+    let (tl, t) := t.pt
+    let (d, t) := t.nat
+    let (w, t) := t.nat
+    let (a, _) := t.nat
+    let c : Circle := ⟨tl, d⟩
+    let st : PrimStyle := ⟨none, some 9, w, alignOf a⟩
+    some s!"s={fmtCircle (c.strokeArea st)} f={fmtCircle (c.fillArea st)} sbb={fmtRect (c.styledBoundingBox st)}"
+  | "circle.styled" =>
+    let (tl, t) := t.pt
+    let (d, t) := t.nat
+    let (f, t) := t.str
+    let (s, t) := t.str
+    let (w, t) := t.nat
+    let (a, t) := t.nat
+    let (B, _) := t.rect
+    let c : Circle := ⟨tl, d⟩
+    let st : PrimStyle := ⟨parseCol f, parseCol s, w, alignOf a⟩
+    let calls := c.drawStyled st
+    let m1 := canonPix (calls.flatMap (Call.writesDefault B))
+    let m2 := canonPix (calls.flatMap (Call.writesNative B))
+    some s!"log={fmtLog calls} m1={fmtPix m1} m2={fmtPix m2} px={fmtPix (c.styledPixels st)}"
+  | _ => none
 
 end EG.Driver
